@@ -76,11 +76,14 @@ def firstErr (first : String) (c : String) : Option (Sygma.C11.Err String) :=
     else ((String.ofList r).splitOn "+").mapM peerOf |>.map fun ps => .wrap (.wrap (.tss ps true))
   | _ => none
 
+/-- the harness reports an untyped error as `err` (error TEXTS are not part of the behaviour): an attempt aborted by a
+    fail message and one ended by an undecodable start are both `err` -/
 def showRes : Res → String
-  | .ok => "ok" | .fail => "fail" | .badStart => "other"
+  | .ok => "ok" | .fail => "err" | .badStart => "err"
 
-def parseRes (s : String) : Option Res :=
-  if s = "ok" then some .ok else if s = "fail" then some .fail else if s = "other" then some .badStart else none
+/-- the results an observed outcome may stand for -/
+def parseResAny (s : String) : List Res :=
+  if s = "ok" then [.ok] else if s = "err" then [.fail, .badStart] else []
 
 /-- `k=v;k=v` → value of key k -/
 def field (s k : String) : Option String :=
@@ -224,11 +227,12 @@ def handleCore (op : String) (args : List String) (impl : String) : Option Verdi
         let tr := evs.filterMap fun e => match e with | .inl e => some e | _ => none
         let st := runWait2 (some elected) none tr
         let m := s!"mode=w;sel={sel};r={toks st.readies};n=0;start=none;run={joinOr (st.runs.map fun n => "w:p" ++ toString n) "/"};res={showRes st.res}"
-        let ok := match field impl "r", field impl "run", (field impl "res").bind parseRes with
+        let ok := match field impl "r", field impl "run", field impl "res" with
           | some r, some rn, some res =>
             match peers r, (items rn "/").mapM (fun x => if x.startsWith "w:p" then (x.drop 3).toString.toNat? else none) with
-            -- (retry_follower_obeys_only: obeys only the elected coordinator AND no fail message aborts the attempt)
-            | some rs, some runs => decide (ObeysOnly elected tr rs runs res) && res != .fail
+            -- (retry_follower_obeys_only: obeys only the elected coordinator AND no fail message aborts the attempt: an
+            --  `err` outcome can only be the undecodable start of the elected coordinator)
+            | some rs, some runs => (parseResAny res).any fun x => x != .fail && decide (ObeysOnly elected tr rs runs x)
             | _, _ => false
           | _, _, _ => false
         return ⟨m, ok, s!"retry2:follows:res={showRes st.res}:ran={!st.runs.isEmpty}:fails={fails}"⟩
@@ -248,7 +252,7 @@ def handleCore (op : String) (args : List String) (impl : String) : Option Verdi
     let (ann, aborted) := runCoord key cfg (some self) cos
     let readies := readiesCo cos
     let nAll := (cos.takeWhile fun e => e != CoEv.fail self).filter (fun e => match e with | .ready _ => true | _ => false) |>.length
-    let res := if aborted then "fail" else "ok"
+    let res := if aborted then "err" else "ok"
     let m := match ann with
       | some (n, S) => s!"n={n};start={toks S};run={toks S};res={res}"
       | none => s!"n={nAll};start=none;run=-;res={res}"
@@ -257,9 +261,9 @@ def handleCore (op : String) (args : List String) (impl : String) : Option Verdi
     let ok := match field impl "start", field impl "run", field impl "res", (field impl "n").bind String.toNat? with
       | some st, some rn, some ires, some n =>
         (if st = "none" then rn == "-" else rn == st) && n ≤ readies.length &&
-        (ires == "ok" || (ires == "fail" && cos.contains (CoEv.fail self))) &&
+        (ires == "ok" || (ires == "err" && cos.contains (CoEv.fail self))) &&
         match (if st = "none" then some none else (peers st).map some) with
-          | some out => (ires == "fail" && st == "none") || decide (AnnouncedOk cfg (readies.take n) readies out)
+          | some out => (ires == "err" && st == "none") || decide (AnnouncedOk cfg (readies.take n) readies out)
           | none => false
       | _, _, _, _ => false
     return ⟨m, ok, s!"coord1:announced={ann.isSome}:aborted={aborted}:fails={cos.any fun e => match e with | .fail _ => true | _ => false}"⟩
@@ -273,10 +277,10 @@ def handleCore (op : String) (args : List String) (impl : String) : Option Verdi
     | some c =>
       if c = self then return ⟨"selfcoord", impl == "selfcoord", "wait:selfcoord"⟩
       let s := runWait (some c) evs
-      let ok := match field impl "r", field impl "run", (field impl "res").bind parseRes with
+      let ok := match field impl "r", field impl "run", field impl "res" with
         | some r, some rn, some res =>
           match peers r, parseRuns rn with
-          | some rs, some runs => decide (ObeysOnly c evs rs runs res)
+          | some rs, some runs => (parseResAny res).any fun x => decide (ObeysOnly c evs rs runs x)
           | _, _ => false
         | _, _, _ => false
       let forged := evs.any (fun e => e.src != c)
